@@ -70,6 +70,9 @@ func (w *vWorld) mkStmt(cols, nparams int) *PreparedStatement {
 			if info.outcome == 0 || info.outcome == 3 {
 				delivered = 1
 			}
+			if info.outcome == 4 {
+				delivered = 2
+			}
 			w.countersRight = append(w.countersRight, dw.Written() == delivered)
 		}()
 		row := make([]any, info.cols)
@@ -85,6 +88,14 @@ func (w *vWorld) mkStmt(cols, nparams int) *PreparedStatement {
 		case 1:
 			return errVerifExec
 		case 2:
+			return dw.Complete("T")
+		case 4: // two rows, then complete
+			if err := dw.Row(row); err != nil {
+				return err
+			}
+			if err := dw.Row(row); err != nil {
+				return err
+			}
 			return dw.Complete("T")
 		default:
 			if err := dw.Row(row); err != nil {
@@ -187,6 +198,8 @@ func vRowsOf(s *vStmtInfo) string {
 		return "E"
 	case 2:
 		return "C"
+	case 4:
+		return "DDC"
 	default:
 		return "DE"
 	}
@@ -424,7 +437,7 @@ func VerifH05b() {
 	input := vMsgBytes('Q', vCStr(q))
 	w := vNewWorld(input, 64)
 	w.parseMenu = 5
-	w.execMenu = 4
+	w.execMenu = 5
 	got, err := w.step()
 	vAssert("connection-stays-up", err == nil)
 
